@@ -211,8 +211,11 @@ ReceiverLabel ==
               ELSE IF pc = "done" THEN "C02:FileAtEnd" ELSE "C13:KeptNotPrefix"
     [] OTHER -> "C07:Hang"
 
+\* In a window at or beyond the block-number wrap every divergence also breaks C15 ("transfers
+\* beyond 65535 blocks stay correct"); in duplicate-packets mode every divergence also breaks
+\* C16 ("... stays correct").
 Label == (IF Sending THEN SenderLabel ELSE ReceiverLabel)
-         \o (IF NearWrap THEN "+C15" ELSE "")
+         \o (IF NearWrap THEN "+C15" ELSE "") \o (IF p.R > 1 THEN "+C16" ELSE "")
 
 Deviate ==
   /\ l <= N /\ ~dev /\ E.e # "cfg"
